@@ -11,7 +11,7 @@ import vcommon  # noqa: E402
 
 
 def run(pid, tier, replay, start):
-    plan = [("std", "c12", [])] if tier == "quick" else [("std", "c12", []), ("nostd", "c12", [])]
+    plan = [("std", "c12", []), ("nostd", "c12", [])]
     code = vcommon.run_rust_check(pid, tier, replay, start, "model_checking", plan)
     if replay:
         return code
